@@ -206,6 +206,7 @@ func (s *Syncer[H]) setLocalHead(ctx context.Context, netHead H) {
 			"err", err)
 	}
 	s.metrics.newSubjectiveHead(s.ctx, netHead.Height(), netHead.Time())
+	simYield("sync:setLocalHead:after-append")
 
 	storeHead, err := s.store.Head(ctx)
 	if err == nil && storeHead.Height() >= netHead.Height() {
@@ -223,6 +224,8 @@ func (s *Syncer[H]) setLocalHead(ctx context.Context, netHead H) {
 func (s *Syncer[H]) incomingNetworkHead(ctx context.Context, head H) error {
 	// ensure there is no racing between network head candidates
 	// additionally ensures there is only one bifurcation attempt at a time
+	simAcquire("incomingMu")
+	defer simRelease("incomingMu")
 	s.incomingMu.Lock()
 	defer s.incomingMu.Unlock()
 
